@@ -41,13 +41,13 @@ pub fn dead_code_elimination(function: &il::Function) -> Result<il::Function, Er
             };
             let rpl = il::RefProgramLocation::new(function, rfl);
 
-            rd.get(&rpl.into())
-                .unwrap()
-                .locations()
-                .iter()
-                .for_each(|location| {
+            // Blocks which are unreachable from the entry have no reaching
+            // definitions.
+            if let Some(definitions) = rd.get(&rpl.into()) {
+                definitions.locations().iter().for_each(|location| {
                     live.insert(location.function_location().clone());
                 });
+            }
         });
 
     for block in function.blocks() {
@@ -85,7 +85,12 @@ pub fn dead_code_elimination(function: &il::Function) -> Result<il::Function, Er
                 .unwrap_or(false)
         })
         .filter(|location| !live.contains(&location.clone().into()))
-        .filter(|location| du[&location.clone().program_location(function).into()].is_empty())
+        .filter(|location| {
+            // Unreachable code has no def-use entry and is left alone.
+            du.get(&location.clone().program_location(function).into())
+                .map(|uses| uses.is_empty())
+                .unwrap_or(false)
+        })
         .map(|l| l.into())
         .collect::<Vec<il::FunctionLocation>>();
 
